@@ -127,7 +127,8 @@ def run(ctx):
 
     # CLI: the passphrase is used exactly as given (line terminators, blanks, tabs included), via flag and via PASSWORD
     ph0 = cases[6][1]
-    pws = ["TREZOR\n", "TREZOR\r\n", "TREZOR\r", "\n", " TREZOR", "TREZOR ", "\tx\t", "a\nb", "\u3000x\u3000", "TREZOR"]
+    pws = ["TREZOR\n", "TREZOR\r\n", "TREZOR\r", "\n", " TREZOR", "TREZOR ", "\tx\t", "a\nb", "\u3000x\u3000", "TREZOR",
+           "-", "--", "-x", "--password", "- ", "@file", "/dev/stdin", "~", "$HOME", "%s", "\\n"]
     runs = [dict(args=["export", "--mnemonic", ph0, "--password=" + pw]) for pw in pws] + [dict(args=["export", "--mnemonic", ph0], env=dict(PASSWORD=pw)) for pw in pws]
     for rn, r, pw in zip(runs, ctx.cli(runs), pws + pws):
         ctx.count("cli/password-verbatim")
